@@ -86,6 +86,10 @@ def cases(rng, tier):
         if k in seen:
             continue
         seen.add(k); out.append(c)
+    # the client lookup of the SQLAlchemy integration: identifiers that are patterns to a LIKE, differ in letter case, or carry stray blanks name NO client
+    for cid in ("c1", "%", "_1", "c%", "C1", "c_", "%1", "c1 ", " c1", "portal-7f3a", "_ortal-7f3a", "portal%", "PORTAL-7F3A", "c1%00", "c1\\"):
+        for rt in ("code", "token", "id_token"):
+            out.append({"op": "sqla_lookup", "cid": cid, "rt": rt})
     return out
 
 
@@ -214,8 +218,49 @@ def impl_one(c, framework):
         return {"raised": type(e).__name__ + ": " + str(e)[:100]}
 
 
+_SQLA = {}
+
+
+def sqla_query_client():
+    """the repo's own SQLAlchemy client lookup (sqla_oauth2.create_query_client_func) over an in-memory SQLite table holding client c1"""
+    if not _SQLA:
+        from sqlalchemy import create_engine, Column, Integer
+        from sqlalchemy.orm import declarative_base, sessionmaker
+        from authlib.integrations.sqla_oauth2 import OAuth2ClientMixin
+        Base = declarative_base()
+
+        class ClientRow(Base, OAuth2ClientMixin):
+            __tablename__ = "oauth2_client"
+            id = Column(Integer, primary_key=True)
+        engine = create_engine("sqlite://")
+        Base.metadata.create_all(engine)
+        session = sessionmaker(bind=engine)()
+        for cid in ("c1", "portal-7f3a"):
+            row = ClientRow(client_id=cid, client_secret="")
+            row.set_client_metadata({"redirect_uris": ["https://good/cb"], "scope": "openid profile", "grant_types": list(ms.ALL_GRANT_TYPES),
+                                     "response_types": list(ms.ALL_RESPONSE_TYPES), "token_endpoint_auth_method": "none"})
+            session.add(row)
+        session.commit()
+        _SQLA["session"], _SQLA["model"] = session, ClientRow
+    from authlib.integrations.sqla_oauth2 import create_query_client_func
+    return create_query_client_func(_SQLA["session"], _SQLA["model"])
+
+
+def impl_sqla(c):
+    store, srv, rp = ms.build(oidc=True)
+    srv.query_client = sqla_query_client()
+    form = dict(response_type=c["rt"], client_id=c["cid"], scope="openid profile" if c["rt"] != "code" and c["rt"] != "token" else "profile", state="s", nonce="n1")
+    try:
+        r = srv.create_authorization_response(Req("POST", "https://as.example/authorize", form), grant_user=store.users[1])
+        return canon_response(r)
+    except Exception as e:
+        return {"raised": type(e).__name__ + ": " + str(e)[:100]}
+
+
 def impl(c):
     """the same request against the core server and against the Flask and Django integrations (their request wrappers and response builders)"""
+    if c.get("op") == "sqla_lookup":
+        return impl_sqla(c)
     out = impl_one(c, None)
     for fw in FRAMEWORKS[1:]:
         o = impl_one(c, fw)
@@ -225,6 +270,8 @@ def impl(c):
 
 
 def model_line(c):
+    if c.get("op") == "sqla_lookup":
+        return None
     req = build_request(c)
     # what request.data / datalist look like (query first, form overrides)
     from collections import Counter
@@ -266,6 +313,16 @@ def model_canon(mo):
 
 
 def oracle(c, out):
+    if c.get("op") == "sqla_lookup":
+        known = c["cid"] in ("c1", "portal-7f3a")
+        if "raised" in out:
+            return [(f"SQLAlchemy client lookup, client_id {c['cid']!r}: authorization endpoint raised {out['raised']}", {"kind": "crash", "exc": out["raised"].split(":")[0], "op": "sqla_lookup"})]
+        if "redirect" in out and not known:
+            return [(f"SQLAlchemy client lookup: the request names client_id {c['cid']!r}, which no client has, and the user agent was sent to {out['_location']!r}",
+                     {"kind": "unregistered-redirect", "rt": c["rt"], "mode": out["redirect"]["mode"], "op": "sqla_lookup"})]
+        if "redirect" not in out and known:
+            return [(f"SQLAlchemy client lookup: the existing client {c['cid']!r} was answered locally with {out}", {"kind": "known-client-refused", "op": "sqla_lookup"})]
+        return []
     v = oracle_one(c, out, "core")
     for fw in FRAMEWORKS[1:]:
         if "_" + fw in out:
@@ -310,6 +367,8 @@ def oracle_one(c, out, fw):
 
 
 def classify(c, out):
+    if c.get("op") == "sqla_lookup":
+        return "sqla_lookup/" + ("redirect" if "redirect" in out else "local")
     if "redirect" in out:
         errs = [p[1] for p in out["redirect"]["params"] if p[0] == "error"]
         return f"{c['op']}/redirect/{out['redirect']['mode']}/" + (errs[0] if errs else "granted")
